@@ -51,7 +51,7 @@ type JobResult struct {
 	Err       string         `json:"err,omitempty"`
 }
 
-var progress atomic.Int64
+// progress counter: see Progress in run.go
 var curPlan atomic.Pointer[Plan]
 
 func addMap(dst map[string]int, src map[string]int) {
@@ -91,7 +91,7 @@ func runOne(t *testing.T, plan *Plan) *RunResult {
 		res.Viol = &Violation{Prop: plan.Prop, Oracle: "goroutine-leak", Op: len(plan.Ops), OpKind: "run",
 			Msg: "at the end of the run a goroutine started by gkvlite is still blocked for ever (iterator producer never exits): " + msg}
 	}
-	progress.Add(1)
+	Progress.Add(1)
 	return res
 }
 
@@ -114,6 +114,7 @@ func TestWorker(t *testing.T) {
 	if job.HangS <= 0 {
 		job.HangS = 60
 	}
+	Thorough = job.Tier == "thorough"
 	res := &JobResult{Prop: job.Prop, Ops: map[string]int{}, Fired: map[string]int{}, IO: map[string]int{}, Probes: map[string]int{}, Counters: map[string]int{}}
 	start := time.Now()
 	write := func() {
@@ -125,11 +126,11 @@ func TestWorker(t *testing.T) {
 	}
 	// watchdog outside any bubble: real time, atomics only
 	go func() {
-		last := progress.Load()
+		last := Progress.Load()
 		lastChange := time.Now()
 		for {
 			time.Sleep(500 * time.Millisecond)
-			cur := progress.Load()
+			cur := Progress.Load()
 			if cur != last {
 				last = cur
 				lastChange = time.Now()
